@@ -535,9 +535,9 @@ class Neo4jPropertyGraph(ABCPropertyGraph):
         assert node_id is not None
         assert label is not None
 
-        all_props = {'Class': f'{label}', 'GraphID': f'{self.graph_id}', 'NodeID': f'{node_id}'}
-        if props:
-            all_props.update(props)
+        all_props = dict(props) if props else dict()
+        # the identity of the new node is what the caller asked for, whatever props carry under these keys
+        all_props.update({'Class': f'{label}', 'GraphID': f'{self.graph_id}', 'NodeID': f'{node_id}'})
         string_props = ", ".join((f"{k}: '{v}'" for k, v in all_props.items()))
         labels = f"'GraphNode', '{label}'"
         query = f"CALL apoc.create.node([ {labels} ], {{ {string_props} }});"
